@@ -4,7 +4,12 @@
 (* a real requestor and a real acceptor (after establishment), plus each   *)
 (* peer's final API outcome, must be a behaviour of AssocImpl.             *)
 (*                                                                         *)
-(*   {ev:"reset"}                      a new, established association      *)
+(*   {ev:"reset", raw}                 a new, established association; raw *)
+(*                                     = TRUE: the requestor is a script   *)
+(*                                     that may keep its socket open after *)
+(*                                     the A-RELEASE-RP and write P-DATA   *)
+(*                                     (named misuse actions of AssocImpl, *)
+(*                                     requestor side only)                *)
 (*   {ev:"pdu", from, kind}            the proxy took a PDU from `from`    *)
 (*                                     (logged before it is forwarded)     *)
 (*   {ev:"closed", by}                 the proxy saw `by`'s end close      *)
@@ -17,10 +22,10 @@
 EXTENDS AssocImpl, TLC, Json, IOUtils
 
 Rec == ndJsonDeserialize(IOEnv.TRACE)
-VARIABLE l
-tvars == <<vars, l>>
+VARIABLES l, raw
+tvars == <<vars, l, raw>>
 
-TInit == Init /\ l = 1 /\ TLCSet(1, 1)
+TInit == Init /\ l = 1 /\ raw = FALSE /\ TLCSet(1, 1)
 Ev(e) == l <= Len(Rec) /\ Rec[l].ev = e /\ l' = l + 1
 R == Rec[l]
 
@@ -29,14 +34,16 @@ TReset == /\ Ev("reset")
           /\ chan' = [p \in Peers |-> <<>>]
           /\ open' = [p \in Peers |-> TRUE]
           /\ nd'   = [p \in Peers |-> 0]
+          /\ raw'  = ("raw" \in DOMAIN R /\ R.raw)
 
 TPdu == /\ Ev("pdu")
         /\ LET p == R.from IN
-           CASE R.kind = "PData"     -> SendData(p)
+           CASE R.kind = "PData"     -> SendData(p) \/ (raw /\ p = "rq" /\ DataAfterReleaseMisuse(p))
              [] R.kind = "ReleaseRQ" -> ReleaseCall(p)
              [] R.kind = "ReleaseRP" -> AppReplyRP(p)
              [] R.kind = "Abort"     -> AbortSend(p)
              [] OTHER                -> FALSE
+        /\ UNCHANGED raw
 
 TClosed == /\ Ev("closed")
            /\ LET p == R.by IN
@@ -44,11 +51,14 @@ TClosed == /\ Ev("closed")
               \/ ReleaseCollisionIsError(p) \/ ReleaseEof(p) \/ ReleaseSendFail(p)
               \/ AbortClose(p) \/ DropAny(p)
               \/ AppCloseAfterRP(p) \/ AppRecvAbort(p) \/ AppEof(p)
+              \/ (raw /\ p = "rq" /\ MisuseClose(p))
+           /\ UNCHANGED raw
 
-TEnd == /\ Ev("end") /\ pc[R.peer] = R.state /\ UNCHANGED vars
+TEnd == /\ Ev("end") /\ pc[R.peer] = R.state /\ UNCHANGED <<vars, raw>>
 
-TSilent == /\ UNCHANGED l
-           /\ \E p \in Peers : AppRecvData(p) \/ AppRecvRQ(p)
+TSilent == /\ UNCHANGED <<l, raw>>
+           /\ \/ \E p \in Peers : AppRecvData(p) \/ AppRecvRQ(p)
+              \/ (raw /\ RawRecvRPKeepOpen("rq"))
 
 TNext == TReset \/ TPdu \/ TClosed \/ TEnd \/ TSilent
 TSpec == TInit /\ [][TNext]_tvars
